@@ -189,6 +189,17 @@ def oracle(case: dict):
             if src is None:
                 return None
             (src.parent / ("parsed." + src.name)).write_text("old  1;\n") if case.get("preexisting") else None
+            o = dict(o)
+            if o.get("scope") == ["<existing>"]:
+                # a scope that exists in this source: the first top-level key that holds a dict
+                try:
+                    top = dictIO.DictReader.read(src)
+                    dk = [k for k, v in top.items() if isinstance(v, dict) and not (isinstance(k, str) and ("COMMENT" in k or "INCLUDE" in k))]
+                except Exception:  # noqa: BLE001
+                    dk = []
+                o["scope"] = [dk[0]] if dk else None
+            scope_before = copy.deepcopy(o.get("scope"))
+            exp_name = spec_target_name(src.name, "parsed", scope_before or [], o.get("output"))
             before = snap(root)
             try:
                 dictIO.DictParser.parse(src, **o)
@@ -204,8 +215,10 @@ def oracle(case: dict):
                 return None
             after = snap(root)
             created, deleted, changed = diff(before, after)
-            exp = dictIO.create_target_file_name(src, prefix="parsed", scope=o.get("scope"), output=o.get("output"))
+            exp = src.parent / exp_name          # independent of the implementation's own name helper
             rel = str(exp.relative_to(root))
+            if o.get("scope") != scope_before:
+                return ("parse-modifies-argument", f"parse({src.relative_to(root)}, scope={scope_before}) changed the caller's scope list to {o.get('scope')}")
             touched = sorted(set(created) | set(changed))
             if deleted or touched != [rel]:
                 return ("parse-touches-others", f"parse({src.relative_to(root)}, {o}) touched {touched}, deleted {deleted}; expected exactly {rel}")
@@ -353,7 +366,7 @@ def run(ctx):
         for fmt in ("native", "foam", "json", "xml", "xml-ns"):
             cases.append({"op": "fail", "seed": seed, "file": 0, "fmt": fmt})
         cases.append({"op": "tostring", "seed": seed, "file": 0})
-        combos = list(itertools.product((True, False), ("a", "w"), (True, False), (True, False), (None, "cpp", "foam", "xml", "json"), (None, ["nope"], [])))
+        combos = list(itertools.product((True, False), ("a", "w"), (True, False), (True, False), (None, "cpp", "foam", "xml", "json"), (None, ["nope"], [], ["<existing>"], ["<existing>"])))
         for inc, mode, order, com, out, scope in rng.sample(combos, 6 if ctx.tier == "quick" else 40):
             cases.append({"op": "parse", "seed": seed, "file": rng.randrange(8), "preexisting": rng.random() < 0.5,
                           "opts": {"includes": inc, "mode": mode, "order": order, "comments": com, "output": out, "scope": scope}})
